@@ -1247,10 +1247,10 @@ MANIFEST = dict(
         "shape agreement of the wrapper (log_prob accepts the smallest rank sample() returns; validation leaves the "
         "dynamically sized sequence dimension to the support check). Necessary "
         "conditions of 'identically for padded and packed input', 'up to and including the first end-of-sequence' and of "
-        "the three code paths agreeing; the numeric agreement itself is not decided."),
+        "the three code paths agreeing; the numeric agreement itself is not decided. The packed kernel of sequence_log_probs (pack / pad computed exactly from their documented layout), random_walk_advance itself (ragged lengths with and without a full path) and the greedy search are value tables as well, with log_softmax an exact axis-sensitive surrogate (scores minus their sum along the axis); the state handed to the model's first update_input is the caller's (backward slice interpreted with and without a state)."),
     level_note="Trusted: python ast; documented exception that eos is ignored for packed input. F26 (log_prob of a sample without "
                "sample dimensions raised), F27 (validation rejected early-ending samples), F30 (packed kernel with a negative dim) and "
                "F31 (sample cache written before scoring) F55 (value not broadcast / uninitialised result), F56 (tokens after eos fed to the model) and F28 (cache stored aliases) were found and repaired.",
-    technique="static analysis: sibling-implementation agreement (step fingerprints), neutral-element tables, argument/slot binding, single-source attribute use, def-use version rule; interpretation of the support check over exact values compared with the documented support; RandomWalk.forward interpreted with a scripted sampler leaf and a stateful model leaf (72 walks)",
+    technique="static analysis: sibling-implementation agreement (step fingerprints), neutral-element tables, argument/slot binding, single-source attribute use, def-use version rule; interpretation of the support check over exact values compared with the documented support; RandomWalk.forward interpreted with a scripted sampler leaf and a stateful model leaf (72 walks); packed-kernel and step-function value tables with exact pack/pad leaves and an axis-sensitive softmax surrogate; backward slice of the initial state interpreted over plain data",
     design_ref="DESIGN.md section 4 C07",
 )
